@@ -17,13 +17,15 @@ for m in mods:
     props.append(p)
 if '--clean' in sys.argv:
     shutil.rmtree(fw.BUILD, ignore_errors=True)
+    shutil.rmtree(os.path.join(fw.BUILD, 'stamps'), ignore_errors=True)
     fw.sh("find . -name '*.vo' -o -name '*.vok' -o -name '*.vos' -o -name '*.glob' -o -name '.*.aux' | xargs rm -f", cwd=fw.COQ)
     for f in ('Makefile', 'Makefile.conf', '_CoqProject', '.Makefile.d'):
         try:
             os.remove(os.path.join(fw.COQ, f))
         except OSError:
             pass
-ok, out = fw.coq_make(['-k', 'all'], timeout=3000)
+fw.ensure_makefile()
+ok, out = fw.coq_make(['all'], timeout=3000)
 print('setup: coq build %s in %.0fs' % ('ok' if ok else 'FAILED', time.time() - t0))
 if not ok:
     print(out[-3000:])
